@@ -18,6 +18,7 @@ pub mod c10;
 pub mod c12;
 pub mod pat;
 pub mod c19;
+pub mod c20;
 
 use engine::*;
 use serde::de::DeserializeOwned;
